@@ -60,7 +60,9 @@ fn main() {
             let path = args.get(2).unwrap_or_else(|| usage());
             let v: serde_json::Value = serde_json::from_str(&std::fs::read_to_string(path).unwrap()).unwrap();
             let case = v["replay"]["case"].clone();
-            if let Ok(c) = serde_json::from_value::<qv::fault::FaultCase>(case.clone()) {
+            if let Ok(c) = serde_json::from_value::<qv::crash::ConcCrashCase>(case.clone()) {
+                println!("{}", qv::crash::explain_conc(&c, v["property"] == "C05"));
+            } else if let Ok(c) = serde_json::from_value::<qv::fault::FaultCase>(case.clone()) {
                 // fault plan: explain the history run under the plan (faults stay on; no healing)
                 let mut seq = c.seq.clone();
                 if let qv::fault::FaultMode::Plan(p) = &c.mode {
